@@ -168,6 +168,9 @@ def clearEp (b : Board) : Board :=
   | none => b
 /-- `b.all = b.white | b.black` -/
 def refreshAll (b : Board) : Board := { b with all := b.white ||| b.black }
+/-- `if dst_cell.is_occupied() { color |= dst; piece(dst_cell) |= dst }` of `do_unmake_move` -/
+def restoreCaptured (b : Board) (c : Color) (x : Cell) (v : BB) : Board :=
+  if x.isOcc then (b.orColor c v).orPiece x v else b
 /-- the field restores at the end of `do_unmake_move` -/
 def restore (b : Board) (hash : BB) (castling : Rights) (ep : Option Sq) (mc : Nat) (side : Color) (mn : Nat) : Board :=
   { b with hash := hash, r := { b.r with castling := castling, ep := ep, mc := mc, side := side, mn := mn } }
@@ -300,32 +303,34 @@ def makeMove (b0 : Board) (mv : Move) : Board × RawUndo :=
   let mn' := if c = .black then satInc b0.r.mn else b0.r.mn
   (((b.setTurn mc' c.inv mn').xorHash zMoveSide).refreshAll, undo)
 
-/-- `do_unmake_move::<C>` with `C::COLOR = b.r.side.inv` (`unmake_move_unchecked`) -/
-def unmakeMove (b : Board) (mv : Move) (u : RawUndo) : Board :=
-  let c := b.r.side.inv
+/-- the `match mv.kind` of `do_unmake_move::<C>`; `srcCell = b.get(mv.dst)` and `dstCell = u.dst_cell`
+were read before any modification -/
+def unmakeBody (c : Color) (b : Board) (mv : Move) (srcCell dstCell : Cell) : Board :=
   let src := BB.single mv.src
   let dst := BB.single mv.dst
   let change := src ||| dst
-  let srcCell := b.get mv.dst
-  let dstCell := u.dstCell
-  let b := match mv.kind with
-    | .simple =>
-      let b := (b.putCell mv.src srcCell).putCell mv.dst dstCell
-      let b := b.xorColor c change
-      let b := b.xorPiece srcCell change
-      if dstCell.isOcc then (b.orColor c.inv dst).orPiece dstCell dst else b
-    | .double => makePawnDouble c b mv change true
-    | .promN | .promB | .promR | .promQ =>
-      let pawn := Cell.mk c .pawn
-      let b := (b.putCell mv.src pawn).putCell mv.dst dstCell
-      let b := b.xorColor c change
-      let b := b.xorPiece pawn src
-      let b := b.xorPiece srcCell dst
-      if dstCell.isOcc then (b.orColor c.inv dst).orPiece dstCell dst else b
-    | .castleK => makeCastlingK c b true
-    | .castleQ => makeCastlingQ c b true
-    | .null => b
-    | .ep => makeEnpassant c b mv change true
-  (b.restore u.hash u.castling u.ep u.mc c u.mn).refreshAll
+  match mv.kind with
+  | .simple =>
+    let b := (b.putCell mv.src srcCell).putCell mv.dst dstCell
+    let b := b.xorColor c change
+    let b := b.xorPiece srcCell change
+    b.restoreCaptured c.inv dstCell dst
+  | .double => makePawnDouble c b mv change true
+  | .promN | .promB | .promR | .promQ =>
+    let pawn := Cell.mk c .pawn
+    let b := (b.putCell mv.src pawn).putCell mv.dst dstCell
+    let b := b.xorColor c change
+    let b := b.xorPiece pawn src
+    let b := b.xorPiece srcCell dst
+    b.restoreCaptured c.inv dstCell dst
+  | .castleK => makeCastlingK c b true
+  | .castleQ => makeCastlingQ c b true
+  | .null => b
+  | .ep => makeEnpassant c b mv change true
+
+/-- `do_unmake_move::<C>` with `C::COLOR = b.r.side.inv` (`unmake_move_unchecked`) -/
+def unmakeMove (b : Board) (mv : Move) (u : RawUndo) : Board :=
+  let c := b.r.side.inv
+  ((unmakeBody c b mv (b.get mv.dst) u.dstCell).restore u.hash u.castling u.ep u.mc c u.mn).refreshAll
 
 end Owl.Impl
